@@ -102,3 +102,65 @@ impl<'t> Worker<'t> {
         self.counter.as_ref().unwrap().compute_probs()
     }
 }
+
+/// A lattice node exposed for verification (compiled only with `--cfg vibrato_verif`).
+#[cfg(vibrato_verif)]
+#[derive(Clone, Debug, PartialEq, Eq)]
+pub struct VerifNode {
+    /// End boundary (character position) of the node.
+    pub end: usize,
+    /// Boundary whose nodes are the predecessors.
+    pub start_node: usize,
+    /// Character position where the word starts.
+    pub start_word: usize,
+    /// Lexicon type.
+    pub lex_type: crate::dictionary::LexType,
+    /// Word id.
+    pub word_id: u32,
+    /// Left id.
+    pub left_id: u16,
+    /// Right id.
+    pub right_id: u16,
+    /// Index of the best predecessor.
+    pub min_idx: u16,
+    /// Best accumulated cost.
+    pub min_cost: i32,
+    /// Feature string (empty for BOS/EOS).
+    pub feature: String,
+}
+
+#[cfg(vibrato_verif)]
+impl Worker<'_> {
+    /// Dumps the lattice of the last tokenization: all nodes of boundaries
+    /// `0..=len` (BOS first) and the EOS node, if any.
+    pub fn verif_lattice(&self) -> (Vec<VerifNode>, Option<VerifNode>) {
+        let conv = |end: usize, n: &Node, special: bool| VerifNode {
+            end,
+            start_node: n.start_node,
+            start_word: n.start_word,
+            lex_type: n.lex_type,
+            word_id: n.word_id,
+            left_id: n.left_id,
+            right_id: n.right_id,
+            min_idx: n.min_idx,
+            min_cost: n.min_cost,
+            feature: if special {
+                String::new()
+            } else {
+                self.tokenizer
+                    .dictionary()
+                    .word_feature(n.word_idx())
+                    .to_string()
+            },
+        };
+        let (ends, eos) = self.lattice.verif_dump();
+        let mut nodes = vec![];
+        for (end, list) in ends.iter().enumerate() {
+            for n in list {
+                nodes.push(conv(end, n, end == 0));
+            }
+        }
+        let len = self.lattice.len_char();
+        (nodes, eos.map(|n| conv(len, n, true)))
+    }
+}
